@@ -99,7 +99,7 @@ theorem unwind_phase (fl : Flags) (newC oldC chain : List Nat) (f : Bool) :
 
 /-- wind phase: from `Wind(i, false)` with every candidate block present and valid the loop succeeds in `i+1` steps -/
 theorem wind_phase (fl : Flags) (hfl : fl.txVerdict = false) (newC oldC : List Nat) :
-    ∀ i st, i < newC.length → (∀ h ∈ newC, ∃ b, blkOf st h = some b ∧ b.ok = true) →
+    ∀ i st, i < newC.length → (∀ h ∈ newC, ∃ b, blkOf st h = some b ∧ b.ok = true ∧ b.okNoParent = true) →
       ∃ st', iter fl newC oldC (i + 1) (st, .wind i false) = (st', .success) ∧
         (∀ j < i + 1, (iter fl newC oldC j (st, .wind i false)).2.terminal = false) := by
   intro i
@@ -107,9 +107,9 @@ theorem wind_phase (fl : Flags) (hfl : fl.txVerdict = false) (newC oldC : List N
   | zero =>
     intro st hi hpres
     have hmem : newC[0] ∈ newC := List.getElem_mem hi
-    obtain ⟨b, hb, hok⟩ := hpres _ hmem
+    obtain ⟨b, hb, hok, hokn⟩ := hpres _ hmem
     obtain ⟨e, he, heb⟩ := getB_of_blkOf st _ b hb
-    have hv : validB fl st e.b = true := by simp [validB, hfl, heb, hok]
+    have hv : validB fl st e.b = true := by simp [validB, hfl, heb, hok, hokn]
     have hne : newC.isEmpty = false := by
       cases newC with
       | nil => simp at hi
@@ -122,14 +122,14 @@ theorem wind_phase (fl : Flags) (hfl : fl.txVerdict = false) (newC oldC : List N
   | succ i ih =>
     intro st hi hpres
     have hmem : newC[i + 1] ∈ newC := List.getElem_mem hi
-    obtain ⟨b, hb, hok⟩ := hpres _ hmem
+    obtain ⟨b, hb, hok, hokn⟩ := hpres _ hmem
     obtain ⟨e, he, heb⟩ := getB_of_blkOf st _ b hb
-    have hv : validB fl st e.b = true := by simp [validB, hfl, heb, hok]
+    have hv : validB fl st e.b = true := by simp [validB, hfl, heb, hok, hokn]
     have hstep : stepWR fl newC oldC st (.wind (i + 1) false) = (windBlock st e.b, .wind i false) := by
       simp [stepWR, List.getElem?_eq_getElem hi, he, hv]
     obtain ⟨st', h1, h2⟩ := ih (windBlock st e.b) (by omega) (fun h hh => by
-      obtain ⟨b', hb', hok'⟩ := hpres h hh
-      exact ⟨b', by simpa using hb', hok'⟩)
+      obtain ⟨b', hb', hok', hokn'⟩ := hpres h hh
+      exact ⟨b', by simpa using hb', hok', hokn'⟩)
     refine ⟨st', ?_, ?_⟩
     · rw [iter_succ, hstep]; exact h1
     · intro j hj
@@ -162,7 +162,7 @@ theorem nonterminal_add (fl : Flags) (newC oldC : List Nat) (a b : Nat) (q : Sta
 
 /-- The pinned loop on an all-valid candidate with an empty competitor: success after exactly `|new|` steps. -/
 theorem pinned_extend_succeeds (fl : Flags) (hfl : fl.txVerdict = false) (st : State) (newC : List Nat)
-    (hne : newC ≠ []) (hnew : ∀ h ∈ newC, ∃ b, blkOf st h = some b ∧ b.ok = true) :
+    (hne : newC ≠ []) (hnew : ∀ h ∈ newC, ∃ b, blkOf st h = some b ∧ b.ok = true ∧ b.okNoParent = true) :
     ∃ st', runWR fl newC [] (newC.length + 1) st (.wind (newC.length - 1) false) = some (st', true) := by
   have hpos : 0 < newC.length := List.length_pos_iff.2 hne
   obtain ⟨st', h1, h2⟩ := wind_phase fl hfl newC [] (newC.length - 1) st (by omega) hnew
@@ -177,7 +177,7 @@ theorem pinned_extend_succeeds (fl : Flags) (hfl : fl.txVerdict = false) (st : S
 /-- The pinned loop on an all-valid reorganisation (non-empty competitor, candidate strictly longer — what the
     longest-chain test guarantees): success after exactly `|old| + |new|` steps. -/
 theorem pinned_reorg_succeeds (fl : Flags) (hfl : fl.txVerdict = false) (st : State) (newC oldC : List Nat)
-    (hold : ∀ h ∈ oldC, (blkOf st h).isSome) (hnew : ∀ h ∈ newC, ∃ b, blkOf st h = some b ∧ b.ok = true)
+    (hold : ∀ h ∈ oldC, (blkOf st h).isSome) (hnew : ∀ h ∈ newC, ∃ b, blkOf st h = some b ∧ b.ok = true ∧ b.okNoParent = true)
     (hne : oldC ≠ []) (hlen : oldC.length < newC.length) :
     ∃ st', runWR fl newC oldC (oldC.length + newC.length + 1) st (.unwind 0 true oldC) = some (st', true) := by
   have hopos : 0 < oldC.length := List.length_pos_iff.2 hne
@@ -185,12 +185,12 @@ theorem pinned_reorg_succeeds (fl : Flags) (hfl : fl.txVerdict = false) (st : St
   -- first wind step: index n-1 ≥ 1, flag true, block valid → Wind(n-2, false)
   have hn2 : newC.length - 1 < newC.length := by omega
   have hmem : newC[newC.length - 1] ∈ newC := List.getElem_mem hn2
-  have hnew1 : ∀ h ∈ newC, ∃ b, blkOf st1 h = some b ∧ b.ok = true := fun h hh => by
-    obtain ⟨b, hb, hok⟩ := hnew h hh
-    exact ⟨b, by rw [u2]; exact hb, hok⟩
-  obtain ⟨b, hb, hok⟩ := hnew1 _ hmem
+  have hnew1 : ∀ h ∈ newC, ∃ b, blkOf st1 h = some b ∧ b.ok = true ∧ b.okNoParent = true := fun h hh => by
+    obtain ⟨b, hb, hok, hokn⟩ := hnew h hh
+    exact ⟨b, by rw [u2]; exact hb, hok, hokn⟩
+  obtain ⟨b, hb, hok, hokn⟩ := hnew1 _ hmem
   obtain ⟨e, he, heb⟩ := getB_of_blkOf st1 _ b hb
-  have hv : validB fl st1 e.b = true := by simp [validB, hfl, heb, hok]
+  have hv : validB fl st1 e.b = true := by simp [validB, hfl, heb, hok, hokn]
   have hemp : newC.isEmpty = false := by
     cases newC with
     | nil => simp at hlen
@@ -199,9 +199,9 @@ theorem pinned_reorg_succeeds (fl : Flags) (hfl : fl.txVerdict = false) (st : St
   have hstep : stepWR fl newC oldC st1 (.wind (newC.length - 1) true) =
       (windBlock st1 e.b, .wind (newC.length - 1 - 1) false) := by
     simp [stepWR, List.getElem?_eq_getElem hn2, he, hv, hemp, hnz]
-  have hnew2 : ∀ h ∈ newC, ∃ b, blkOf (windBlock st1 e.b) h = some b ∧ b.ok = true := fun h hh => by
-    obtain ⟨b', hb', hok'⟩ := hnew1 h hh
-    exact ⟨b', by simpa using hb', hok'⟩
+  have hnew2 : ∀ h ∈ newC, ∃ b, blkOf (windBlock st1 e.b) h = some b ∧ b.ok = true ∧ b.okNoParent = true := fun h hh => by
+    obtain ⟨b', hb', hok', hokn'⟩ := hnew1 h hh
+    exact ⟨b', by simpa using hb', hok', hokn'⟩
   obtain ⟨st3, w1, w2⟩ := wind_phase fl hfl newC oldC (newC.length - 1 - 1) (windBlock st1 e.b) (by omega) hnew2
   have hsteps : newC.length - 1 - 1 + 1 = newC.length - 1 := by omega
   rw [hsteps] at w1 w2
